@@ -92,39 +92,40 @@ func runE2E(t *testing.T, windows []win, worker int, vars []variant, clocks []in
 	return obs, infra
 }
 
-// judgeE2E: with a selectable version every one of the route's targets gets
-// exactly one correctly signed request; without one, none.
-func judgeE2E(spec outSpec, o e2eObs) (pick int, tie string, fl *failure) {
+// judgeE2E: without a selectable version no push request may be observed; with
+// one, every observed push request has to be correctly signed (and all targets
+// of the route by the same version). That all 8 targets were actually reached
+// is a vacuity guard of the harness (missing > 0 is reported as an
+// infrastructure error by the caller), not part of the property.
+func judgeE2E(spec outSpec, o e2eObs) (pick int, tie string, missing int, fl *failure) {
 	names := outRoutes[o.Route].Expected
 	group := refGroup(spec.Windows, spec.Sel, o.Clock.At.UnixNano())
 	if len(group) == 0 {
 		if len(o.Got) == 0 {
-			return pickNone, noTie, nil
+			return pickNone, noTie, 0, nil
 		}
 		_, _, fl = judge(spec, o.Clock.At, names, o.Got[:1]) // any request is a failure
 		if fl != nil {
 			fl.Key = "e2e:" + fl.Key
 		}
-		return pickFailed, noTie, fl
+		return pickFailed, noTie, 0, fl
 	}
-	if len(o.Got) != len(urlPaths) {
-		return pickFailed, noTie, &failure{"e2e:push-count", fmt.Sprintf("%d push requests for %d targets of %s; %s clock=%s", len(o.Got), len(urlPaths), routeOf(o.Var, o.Route), spec, o.Clock.Label)}
-	}
-	want := fmt.Sprintf("%s|", routeOf(o.Var, o.Route))
+	missing = len(urlPaths) - len(o.Got)
+	want := routeOf(o.Var, o.Route) + "|"
 	pick = pickFailed
 	for _, g := range o.Got {
 		if !strings.HasPrefix(string(g.Body), want) {
-			return pickFailed, noTie, &failure{"e2e:foreign-message", fmt.Sprintf("body %q on route %s", g.Body, routeOf(o.Var, o.Route))}
+			return pickFailed, noTie, missing, &failure{"e2e:foreign-message", fmt.Sprintf("body %q on route %s", g.Body, routeOf(o.Var, o.Route))}
 		}
 		p, tdir, f := judge(spec, o.Clock.At, names, []seen{g})
 		if f != nil {
 			f.Key = "e2e:" + f.Key
-			return pickFailed, tdir, f
+			return pickFailed, tdir, missing, f
 		}
 		if pick != pickFailed && p != pick {
-			return pickFailed, tdir, &failure{"e2e:targets-signed-with-different-versions", fmt.Sprintf("%s and %s at the same instant; %s clock=%s", ids[pick], ids[p], spec, o.Clock.Label)}
+			return pickFailed, tdir, missing, &failure{"e2e:targets-signed-with-different-versions", fmt.Sprintf("%s and %s at the same instant; %s clock=%s", ids[pick], ids[p], spec, o.Clock.Label)}
 		}
 		pick, tie = p, tdir
 	}
-	return pick, tie, nil
+	return pick, tie, missing, nil
 }
